@@ -131,7 +131,7 @@ theorem mem_splitKeys (cfg : Config) (e : Entry F) (k : Key) :
 
 /-- every emitted record is the split record of a per-metric dimension set that some metric of the
 entry carries, or the no-dimension record -/
-theorem mem_emit (cfg : Config) (ops : FloatOps F) (mult : Option Nat) (e : Entry F) (r : Record F)
+theorem mem_emit_c08 (cfg : Config) (ops : FloatOps F) (mult : Option Nat) (e : Entry F) (r : Record F)
     (h : r ∈ emit cfg ops mult e) :
     (∃ k ∈ splitKeys cfg e,
         r = mkRecord cfg ops mult e (some k) (routedTo cfg (some k) (metricItems e)) [])
@@ -230,7 +230,7 @@ theorem emit_memberNames_nodup (cfg : Config) (ops : FloatOps F) (mult : Option 
     have : p.2 ∈ metricsNamed x e := by rw [mem_metricsNamed, ← hpn]; exact hp'
     rw [str_no_metric cfg e x hc hx] at this
     cases this
-  rcases mem_emit cfg ops mult e r hr with ⟨k, hk, rfl⟩ | rfl
+  rcases mem_emit_c08 cfg ops mult e r hr with ⟨k, hk, rfl⟩ | rfl
   · obtain ⟨d1, d2, d3, d4⟩ := dimKeysDisjoint_spec cfg e hd k hk
     rw [mkRecord_memberNames]
     exact names_nodup _ _ _ _ _ (fieldsOf_names_sublist ops mult _) d1 (routedTo_nodup cfg e _ hc)
